@@ -136,6 +136,8 @@ def history(draw):
         "product_revision_level": draw(st.binary(min_size=4, max_size=4)),
         "version": draw(gen.fv(8)), "rmb": draw(st.integers(0, 1)), "cmdque": draw(st.integers(0, 1)),
         "tpgs": draw(gen.fv(2)), "protect": draw(st.integers(0, 1)),
+        # the target's standard INQUIRY data: the 36-byte minimum (revision level in its last bytes) up to 96 bytes
+        "std_len": draw(st.sampled_from([36, 36, 57, 58, 96, 96])),
     }
     serial = draw(st.binary(min_size=1, max_size=24))
     rc16 = {"p_type": draw(gen.fv(3)), "prot_en": draw(st.integers(0, 1)), "p_i_exponent": draw(gen.fv(4)),
@@ -193,7 +195,8 @@ def run_history(case, transport):
     from pyscsi.pyscsi.scsi import SCSI
 
     bs, cap = case["bs"], case["cap"]
-    tgt = Target(bs, cap, devtype=case["devtype"], identity={"std": case["ident"], "readcap16": case["rc16"]},
+    tgt = Target(bs, cap, devtype=case["devtype"], identity={"std": case["ident"], "readcap16": case["rc16"],
+                                                           "std_len": case["ident"].get("std_len", 96)},
                  vpd={"serial": case["serial"], "designators": [
                      {"designator_type": 3, "code_set": 1, "association": 0,
                       "designator": {"naa": 5, "ieee_company_id": 0x123456, "vendor_specific_identifier": 0xABCDE0123}},
@@ -278,6 +281,8 @@ def run_history(case, transport):
                        got=r.get("peripheral_device_type"))
                 if page is None:
                     for kk, vv in case["ident"].items():
+                        if kk == "std_len":
+                            continue
                         g = r.get(kk)
                         g = bytes(g) if isinstance(g, (bytes, bytearray)) else g
                         expect(g == vv, "mismatch:inquiry:" + kk, got=g, want=vv)
